@@ -108,6 +108,19 @@ def extract_worker():
     return c
 
 
+def extract_cursor():
+    w = strip(open("/repo/quic/s2n-quic-core/src/sync/cursor.rs").read())
+    c = {}
+    for fn, who, op, key in (("acquire_producer", "consumer", "load", "OrdConsumerLoad"), ("release_producer", "producer", "fetch_add", "OrdProducerAdd"),
+                             ("acquire_consumer", "producer", "load", "OrdProducerLoad"), ("release_consumer", "consumer", "fetch_add", "OrdConsumerAdd")):
+        b = body(w, fn)
+        v = [ORD[o] for o in re.findall(r"self\s*\.\s*%s\s*\(\s*\)\s*\.\s*%s\s*\([^;]*?Ordering::(\w+)" % (who, op), b)]
+        if len(v) != 1:
+            raise vlib.ToolError("cursor: %s no longer has exactly one `%s().%s`" % (fn, who, op))
+        c[key] = v[0]
+    return c
+
+
 def tla(v):
     return ("TRUE" if v else "FALSE") if isinstance(v, bool) else '"%s"' % v
 
@@ -133,6 +146,15 @@ def run(ctx):
         cfg = ctx.make_cfg("MC_WorkerChannel.cfg", "MC_WorkerChannel_s%d_%s.cfg" % (senders, "drop" if drop else "alive"),
                            {k: (v if isinstance(v, int) and not isinstance(v, bool) else tla(v)) for k, v in c.items()})
         ctx.mc("MC_WorkerChannel", cfg=cfg, workers=4, timeout=1500)
+    # sync::cursor (socket ring cursors): descriptors are never touched by both sides unordered, FIFO, cached lengths stay
+    # within the ring, across counter wrap-around
+    cc = extract_cursor()
+    ctx.cov["cursor_orderings_from_source"] = cc
+    for size, m, start, items, mb in ((2, 8, 6, 5, 2), (4, 16, 14, 9, 3)) if q else ((2, 8, 6, 7, 2), (4, 16, 14, 12, 3), (4, 16, 13, 12, 4)):
+        c = dict(cc, Size=size, M=m, Start=start, Items=items, MaxBatch=mb)
+        cfg = ctx.make_cfg("MC_RingCursor.cfg", "MC_RingCursor_%d_%d.cfg" % (size, items),
+                           {k: (v if isinstance(v, int) and not isinstance(v, bool) else tla(v)) for k, v in c.items()})
+        ctx.mc("MC_RingCursor", cfg=cfg, workers=4, timeout=1500)
     tfw = os.path.join(ctx.out, "worker-items.ndjson")
     rw = ctx.harness(hb, ["worker-record", ctx.seed, 300 if q else 5000, tfw], timeout=3000)
     ctx.cov["stages"].append({"stage": "record", "what": "worker channel, 1-2 sender handles on OS threads", **{k: v for k, v in rw.items() if not k.startswith("_")}})
@@ -148,4 +170,4 @@ def run(ctx):
     ctx.count(r["events"])
     ctx.assume("memory model: release/acquire message passing with per-location coherence and vector clocks for the non-atomic slots (SeqCst is treated as AcqRel read-modify-write on the latest value; release sequences and fences are not modelled); AtomicWaker (crate atomic-waker) is an atomic register/wake object and trusted")
     ctx.assume("orderings and statement order are read from the source text of sync/spsc (state.rs, send.rs, recv.rs) at every run; a change of structure the specification does not know is a tool error asking for the specification to be updated")
-    ctx.assume("sync/cursor.rs (socket ring cursors) and transport/wakeup_queue.rs are not modelled: this check decides the property for the spsc channel and the worker credit channel")
+    ctx.assume("transport/wakeup_queue.rs (a mutex-protected queue, no lock-free protocol) is not modelled; the ring cursors are model-checked only (no trace of the real cursors): this check decides the property for the spsc channel, the worker credit channel and the ring cursor protocol")
